@@ -942,9 +942,19 @@ def _compile_bool(ctx, t, idset, memo):
     def generic(t):
         num_ok = numeric_possible(t)
         len_of = None
+        # a comprehension without filter is empty exactly when what it runs over is
+        forms = [t]
+        cur = t
+        for _ in range(4):
+            hc = ctx.head_of(cur)
+            if hc and hc[0] == "seqcomp" and hc[1] == 1 and ctx.head_of(ctx.args_of(cur)[1]) == ("gen", 0):
+                cur = ctx.args_of(ctx.args_of(cur)[1])[0]
+                forms.append(cur)
+            else:
+                break
         for aid in idset:
             hd, ar = ctx.atoms[aid]
-            if hd[0] == "call" and hd[1] == "len" and len(ar) == 1 and ctx.eq(ar[0], t):
+            if hd[0] == "call" and hd[1] == "len" and len(ar) == 1 and any(ctx.eq(ar[0], f_) for f_ in forms):
                 len_of = aid
                 break
         key, neg = _prop_key(ctx, t)
